@@ -1,6 +1,7 @@
 import JT.Gen.GoModel
 import JT.Proof.GoFrame
 import JT.Proof.GoTotal
+import JT.Proof.GoModel8003
 /-!
 # Reply bodies as translated from protocol/model: the general response, the registration response, the
 authentication response
@@ -50,5 +51,34 @@ theorem T0x0102_ReplyBody_eq (fuel : Nat) (t : model_T0x0102) (j : jt808_JTMessa
     · simp [hp, P0x8001_Encode_eq]
     · have c : (j.Header.TerminalPhoneNo == t'.AuthCode) = false := by simpa using hp
       simp [c, hp, P0x8001_Encode_eq]
+
+/-- registration response 0x8100 (serial, result, authentication code to the end of the body): `Parse(Encode(v)) = v` on
+the translated code, for every code -/
+theorem P0x8100_roundtrip (fuel : Nat) (t q : model_P0x8100) (j : jt808_JTMessage) :
+    ∃ body, model_P0x8100_Encode fuel t = X.ok body ∧
+      ∃ r, model_P0x8100_Parse fuel q { j with Body := body } = X.ok (r, none) ∧
+        r.RespondSerialNumber = t.RespondSerialNumber ∧ r.Result = t.Result ∧ r.AuthCode = t.AuthCode := by
+  refine ⟨_, P0x8100_Encode_eq fuel t, ?_⟩
+  have hb : Go.be16 t.RespondSerialNumber ++ [t.Result] ++ t.AuthCode =
+      (t.RespondSerialNumber >>> 8).toUInt8 :: t.RespondSerialNumber.toUInt8 :: t.Result :: t.AuthCode := by simp [Go.be16]
+  have c : decide (len (Go.be16 t.RespondSerialNumber ++ [t.Result] ++ t.AuthCode) < (3 : Int)) = false := by
+    rw [hb]; simp; omega
+  simp only [model_P0x8100_Parse, c, Bool.false_eq_true, if_false, model_P0x8100_Parse_j1, hb]
+  have s1 : sliceTo ((t.RespondSerialNumber >>> 8).toUInt8 :: t.RespondSerialNumber.toUInt8 :: t.Result :: t.AuthCode) (2 : Int) =
+      X.ok [(t.RespondSerialNumber >>> 8).toUInt8, t.RespondSerialNumber.toUInt8] := by
+    unfold sliceTo; rw [slice_int _ 0 2 (by simp; omega)]; simp
+  have s2 : idx ((t.RespondSerialNumber >>> 8).toUInt8 :: t.RespondSerialNumber.toUInt8 :: t.Result :: t.AuthCode) (2 : Int) = X.ok t.Result := by
+    simp [idx]
+  have s3 : sliceFrom ((t.RespondSerialNumber >>> 8).toUInt8 :: t.RespondSerialNumber.toUInt8 :: t.Result :: t.AuthCode) (3 : Int) = X.ok t.AuthCode := by
+    have := sliceFrom_ok ((t.RespondSerialNumber >>> 8).toUInt8 :: t.RespondSerialNumber.toUInt8 :: t.Result :: t.AuthCode) 3 (by simp)
+    simpa using this
+  have s4 : u16 [(t.RespondSerialNumber >>> 8).toUInt8, t.RespondSerialNumber.toUInt8] = X.ok t.RespondSerialNumber := by
+    have := u16_be16 t.RespondSerialNumber []
+    simpa using this
+  rw [s1]; simp only [X.bind_ok]
+  rw [s4]; simp only [X.bind_ok]
+  rw [s2]; simp only [X.bind_ok]
+  rw [s3]; simp only [X.bind_ok]
+  exact ⟨_, rfl, rfl, rfl, rfl⟩
 
 end JT.Gen.GoModel
